@@ -255,6 +255,27 @@ pub fn translate_with(
 // ---------------------------------------------------------------------------------------------
 // Command-line tool
 
+/// `--foreign-types` arguments giving the command-line tool the same type universe as the
+/// in-process translator: the repository's Qt 5 metatypes plus the synthetic classes, written
+/// once per process to /verif/target/verif_types.<pid>.json.
+pub fn foreign_types() -> Vec<String> {
+    static F: OnceLock<Vec<String>> = OnceLock::new();
+    F.get_or_init(|| {
+        let dir = "/verif/target/foreign";
+        std::fs::create_dir_all(dir).expect("create /verif/target/foreign");
+        let p = format!("{dir}/verif_types.{}.json", std::process::id());
+        std::fs::write(&p, crate::vtypes::verif_metatypes_json()).expect("write verif types");
+        let mut v = qt_metatype_paths();
+        v.push(p);
+        v
+    })
+    .clone()
+}
+
+pub fn remove_foreign_types_file() {
+    let _ = std::fs::remove_file(format!("/verif/target/foreign/verif_types.{}.json", std::process::id()));
+}
+
 pub fn cli_path() -> String {
     std::env::var("QV_CLI").unwrap_or_else(|_| "/verif/target/cli/debug/qmluic".to_owned())
 }
